@@ -306,11 +306,14 @@ def outer [Mul α] [OfNat α 0] (a b : List α) : Img α :=
   tab2 a.length b.length fun i j => getN a i * getN b j
 
 /-- `y[:a] += y[b:b+a]` along rows, in place.  When `0 < b < a` source and destination
-overlap; torch processes the rows in increasing address order, and every source row
-`b+k` lies after its destination `k`, so the sources are read before they are written:
-the result is that of evaluating the right-hand side first (validated by the
-correspondence on images smaller than the filter). -/
-def foldAddInPlaceRows [Add α] [OfNat α 0] (y : Img α) (a b : Nat) : Option (Img α) :=
+overlap.  torch refuses the operation when it can *see* the partial overlap, which it only
+checks for operands that are dense in memory (`dense`: the row slices of a tensor with a
+single batch item and channel); otherwise it processes the rows in increasing address order,
+and as every source row `b+k` lies after its destination `k` the sources are read before they
+are written: the result is that of evaluating the right-hand side first.  (Both behaviours are
+validated by the correspondence on images smaller than the filter.) -/
+def foldAddInPlaceRows [Add α] [OfNat α 0] (dense : Bool) (y : Img α) (a b : Nat) : Option (Img α) :=
+  if dense ∧ 0 < b ∧ b < a then none else
   some (tab y.length fun k => if k < a then vadd (y.getD k []) (y.getD (b + k) []) else y.getD k [])
 
 def foldAddInPlaceCols [Add α] [OfNat α 0] (y : Img α) (a b : Nat) : Option (Img α) :=
@@ -336,7 +339,7 @@ def afb2dNonsepCh [Add α] [Mul α] [OfNat α 0] (mode : Mode) (hc0 hc1 hr0 hr1 
               (izero (Ly-1) (Nx + 2*(Lx-1)))
     fs.mapM fun f => do
       let y := corr2 f xp 2 2
-      let y1 ← foldAddInPlaceRows y (Ly/2) (Ny/2)
+      let y1 ← foldAddInPlaceRows false y (Ly/2) (Ny/2)
       let y2 ← foldAddInPlaceCols y1 (Lx/2) (Nx/2)
       some ((y2.take (Ny/2)).map fun r => r.take (Nx/2))
   | .zero =>
@@ -370,8 +373,9 @@ def afb2dNonsepCh [Add α] [Mul α] [OfNat α 0] (mode : Mode) (hc0 hc1 hr0 hr1 
     else none
   | _ => none
 
-/-- one channel of `sfb2d_nonsep(coeffs, filts, mode)`; `bands = [ll, lh, hl, hh]` -/
-def sfb2dNonsepCh [Add α] [Mul α] [OfNat α 0] (mode : Mode) (gc0 gc1 gr0 gr1 : List α)
+/-- one channel of `sfb2d_nonsep(coeffs, filts, mode)`; `bands = [ll, lh, hl, hh]`;
+`dense` = the output tensor has a single batch item and channel -/
+def sfb2dNonsepCh [Add α] [Mul α] [OfNat α 0] (mode : Mode) (dense : Bool) (gc0 gc1 gr0 gr1 : List α)
     (bands : List (Img α)) : Option (Img α) :=
   let Ly := gc0.length
   let Lx := gr0.length
@@ -384,7 +388,7 @@ def sfb2dNonsepCh [Add α] [Mul α] [OfNat α 0] (mode : Mode) (gc0 gc1 gr0 gr1 
                 (izero (2*(Ny-1)+Ly) (2*(Nx-1)+Lx))
   match mode with
   | .periodization => do
-    let y1 ← foldAddInPlaceRows full (Ly-2) (2*Ny)
+    let y1 ← foldAddInPlaceRows dense full (Ly-2) (2*Ny)
     let y2 ← foldAddInPlaceCols y1 (Lx-2) (2*Nx)
     let y3 := (y2.take (2*Ny)).map fun r => r.take (2*Nx)
     let y4 := rollPy y3 (1 - ((Ly/2 : Nat) : Int))
